@@ -245,6 +245,17 @@ func genPfJournal(r *rng) pfJournal {
 	if r.chance(20) && contains(p.coms, cur2) {
 		p.val = cur2
 	}
+	// drift: the report is valued in an expensive security whose price moves a little every day, so that the whole
+	// portfolio is worth less than one unit and its daily changes are in the third decimal (seeded change
+	// C20c-returns-epsilon treated |V1 - V0| < 0.005 as "nothing happened" and reported 0% for such periods; every
+	// generated portfolio was worth thousands of units and prices jumped by percents)
+	drift := r.chance(15)
+	driftSec := ""
+	if drift {
+		driftSec = p.coms[len(p.coms)-1]
+		p.val = driftSec
+		p.days = pick(r, []int{20, 45, 70})
+	}
 	p.accounts = []string{"Assets:Bank", "Assets:Broker", "Equity:Opening", "Equity:Trading", "Income:Salary", "Income:Dividends", "Expenses:Fees", "Expenses:Rent"}
 	if r.chance(40) {
 		p.accounts = append(p.accounts, "Assets:Pillar3")
@@ -268,7 +279,21 @@ func genPfJournal(r *rng) pfJournal {
 			target[c] = cur2
 		}
 		base[c] = float64(r.rangeInt(80, 40000)) / 100
+		if c == driftSec {
+			target[c] = hub
+			base[c] = float64(r.rangeInt(2000000, 6000000)) / 100
+		}
 		j = append(j, Dir{Kind: 'P', Date: dateStr(d0.AddDate(0, 0, -2)), Com: c, Price: fmt.Sprintf("%.2f", base[c]), Target: target[c]})
+		if c == driftSec {
+			pr := base[c]
+			for k := 0; k < p.days+30; k++ {
+				if r.chance(85) {
+					pr *= 1 + float64(r.rangeInt(-12, 12))/1000
+					j = append(j, Dir{Kind: 'P', Date: dateStr(d0.AddDate(0, 0, k)), Com: c, Price: fmt.Sprintf("%.2f", pr), Target: hub})
+				}
+			}
+			continue
+		}
 		if !p.quietPrice {
 			n := r.rangeInt(0, 6)
 			for k := 0; k < n; k++ {
@@ -294,7 +319,11 @@ func genPfJournal(r *rng) pfJournal {
 		assetsAcc = append(assetsAcc, "Assets:Pillar3")
 	}
 	// opening deposit so that the portfolio is never empty in the window
-	j = append(j, Dir{Kind: 'T', Date: dateStr(d0), Desc: "Opening", Bookings: []Booking{{"Equity:Opening", "Assets:Bank", amt(r, 5000, 90000), hub}}})
+	openLo, openHi := 5000, 90000
+	if drift {
+		openLo, openHi = 3000, 12000
+	}
+	j = append(j, Dir{Kind: 'T', Date: dateStr(d0), Desc: "Opening", Bookings: []Booking{{"Equity:Opening", "Assets:Bank", amt(r, openLo, openHi), hub}}})
 	if r.chance(70) {
 		c := pick(r, secs)
 		q := fmt.Sprintf("%d", r.rangeInt(1, 40))
